@@ -64,6 +64,11 @@ impl BlockRule for CustomBlockA {
         true
     }
 }
+// never added as a rule: the alias shared by the two custom block rules when they are added with 'g' / 'G'
+pub struct CustomGroup;
+impl BlockRule for CustomGroup {
+    fn run(_state: &mut BlockState, _silent: bool) -> bool { false }
+}
 // Style B: like the shipped rules - leaves state.line alone in look-ahead mode.
 pub struct CustomBlockB;
 impl BlockRule for CustomBlockB {
@@ -129,6 +134,8 @@ pub fn add_custom(md: &mut MarkdownIt, c: char) {
         // same custom block rules, but placed first in the chain
         '6' => { md.block.add_rule::<CustomBlockA>().before_all(); }
         '7' => { md.block.add_rule::<CustomBlockB>().before_all(); }
+        'g' => { md.block.add_rule::<CustomBlockA>().alias::<CustomGroup>(); }
+        'G' => { md.block.add_rule::<CustomBlockB>().alias::<CustomGroup>(); }
         // generic pair with nested inline parsing: %foo%, %%foo%% ...
         '8' => { markdown_it::generics::inline::code_pair::add_with::<'%', true>(md, |len| Node::new(CustomPair(len as u32))); }
         _ => panic!("harness: unknown plugin code {}", c),
@@ -169,6 +176,7 @@ fn remove_rule(md: &mut MarkdownIt, c: char) {
         '4' => md.inline.remove_rule::<CustomInlinePunct>(),
         '5' => md.remove_rule::<CustomCoreRule>(),
         '8' => md.inline.remove_rule::<CodePairScanner<'%', true>>(),
+        'Z' => md.block.remove_rule::<CustomGroup>(),
         _ => panic!("harness: unknown remove code {}", c),
     }
 }
@@ -207,6 +215,7 @@ fn has_rule(md: &mut MarkdownIt, c: char) -> bool {
         '4' => md.inline.has_rule::<CustomInlinePunct>(),
         '5' => md.has_rule::<CustomCoreRule>(),
         '8' => md.inline.has_rule::<CodePairScanner<'%', true>>(),
+        'Z' => md.block.has_rule::<CustomGroup>(),
         _ => panic!("harness: unknown has code {}", c),
     }
 }
